@@ -71,6 +71,11 @@ func skeletonMain(args []string) int {
 		}
 		fmt.Fprintf(w, " RES %s\n", res)
 	}
+	fmt.Fprintf(w, "ENDSKEL %d\n", *n)
+	if err := w.Flush(); err != nil {
+		fmt.Fprintln(os.Stderr, "c09 skeleton:", err)
+		return 2
+	}
 	return 0
 }
 
